@@ -16,6 +16,18 @@ def body(c):
     issues, stats = propdoc.run(c, exe, c.tier, c.seed)
     for it in issues:
         c.issue(it)
+    r = vlib.tlc_model_check("DescriptorMC.tla",
+                             "DescriptorMC_quick.cfg" if c.tier == "quick"
+                             else "DescriptorMC_thorough.cfg", c.work,
+                             workers=8, timeout=1500)
+    c.add_mc("DescriptorMC", r)
+    dissues, dstats = propdoc.run_desc(c, exe, c.tier, c.seed)
+    for it in dissues:
+        c.issue(it)
+    c.add_part("descriptor_traces", dstats)
+    stats["events"] += dstats["events"]
+    stats["episodes"] += dstats["episodes"]
+    stats["distinct_nontrivial"] += dstats["desc_sequences"]
     c.add_part("propdoc_traces", stats)
     c.cov["traces_validated_against_impl"] = stats["episodes"]
     c.cov["evaluations"] = stats["events"]
@@ -26,8 +38,11 @@ def body(c):
         "over a 30-call alphabet (%d cases) plus %d random histories of %d "
         "calls with decorated descriptors and adversarial keys/values; each "
         "public call is one event whose result, errno and full getter "
-        "projection must be explained by PropDoc!Do; distinct_nontrivial "
-        "counts episodes with pairwise different event sequences in which at "
+        "projection must be explained by PropDoc!Do; Descriptor language: every character "
+        "sequence over 22 representative characters up to length 3 (quick) / "
+        "4 (thorough) and random token concatenations through each of 8 API "
+        "functions, each a distinct input.  distinct_nontrivial "
+        "counts those plus episodes with pairwise different event sequences in which at "
         "least one modifying call succeeded." % (3 if c.tier == "quick" else 4,
                                        stats.get("exh_cases", 0),
                                        stats.get("rand_cases", 0),
